@@ -111,6 +111,8 @@ SHORT_DIRS = []
 
 
 def scenario(i, group, git, setvars, ident, root, issuances):
+    idents = list(ident) if isinstance(ident, (list, tuple)) else [ident]
+    ident = idents[0]
     scratch = os.path.join(root, "w%03d" % i)
     settings = {"group": group}
     cenv = {}
@@ -147,15 +149,16 @@ def scenario(i, group, git, setvars, ident, root, issuances):
     level = ("certificate", "identifier", "global")[i % 3] if setvars else "none"
     settings["level"] = level
     if level == "identifier":
-        cert = simple_cert("dh%d" % i, ids=[{"dns": ident, "challenge": chal, "env": cenv}])
+        cert = simple_cert("dh%d" % i, ids=[{"dns": x, "challenge": chal, "env": cenv} for x in idents])
     elif level == "global":
-        cert = simple_cert("dh%d" % i, ids=[{"dns": ident, "challenge": chal}])
+        cert = simple_cert("dh%d" % i, ids=[{"dns": x, "challenge": chal} for x in idents])
     else:
-        cert = simple_cert("dh%d" % i, ids=[{"dns": ident, "challenge": chal}], env=cenv)
+        cert = simple_cert("dh%d" % i, ids=[{"dns": x, "challenge": chal} for x in idents], env=cenv)
 
     def after(sc):
         time.sleep(0.3)
-        w = world_facts(settings, ident)
+        ws = [world_facts(settings, x) for x in idents]
+        w = {k: sum(y[k] for y in ws) for k in ws[0]}
         files = git_facts([sc.world.certs, sc.world.accounts]) if git else [{"name": "none", "committed": True}]
         sc.tw.emit({"src": "drv", "ev": "AfterRun", "world": w, "files": files})
     steps = []
@@ -165,7 +168,7 @@ def scenario(i, group, git, setvars, ident, root, issuances):
     gopts = {"env": cenv} if level == "global" else {}
     sp = dict(tag="C20/s%03d" % i, certs=[cert], hooks=[], cert_hooks=hooks, global_opts=gopts, account_hooks=(["git"] if git else []), include=[DEFAULT_HOOKS],
               endpoints={"A": {"ca": {"validate": make_validator(settings), "offered": [chal], "authz_polls": 1}}}, steps=steps, env=env, timeout=90,
-              meta={"family": "default hooks", "group": group, "git": git, "vars_set": setvars, "identifier": ident, "issuances": issuances, "level": level, "settings": {k: v for k, v in settings.items()}})
+              meta={"family": "default hooks", "group": group, "git": git, "vars_set": setvars, "identifier": ident, "identifiers": idents, "issuances": issuances, "level": level, "settings": {k: v for k, v in settings.items()}})
     return sp, settings
 
 
@@ -191,6 +194,9 @@ def run(ctx):
                 if setvars and not git:
                     # a name longer than a common name may be (64), with a label of the greatest length
                     idents = idents + ["%s.h%d.test" % ("l" * 63, i)]
+                if setvars and not git:
+                    # several names in one certificate share the settings (one listen address, one web root), as behind a reverse proxy
+                    idents = idents + [["n1-%d.test" % i, "n2-%d.test" % i, "n3.sub%d.example" % i][: (3 if ctx.tier == "thorough" else 2)]]
                 for ident in idents:
                     sp, st = scenario(i, group, git, setvars, ident, root, 3 if (ctx.tier == "thorough" or i % 2 == 0) else 2)
                     specs.append(sp)
@@ -262,7 +268,7 @@ def run(ctx):
            "validations_judged": sum(1 for e in lines if e["e"] == "Validated"), "issuances_judged": sum(1 for e in lines if e["e"] == "AttemptEnd"),
            "after_run_snapshots": sum(1 for e in lines if e["e"] == "AfterRun"), "exhaustive": False,
            "rule": "each shipped group (http-01-echo, tls-alpn-01-tacd-tcp, tls-alpn-01-tacd-unix) alone and with git, the five variables set to a scratch root or left "
-                   "to their documented defaults, identifiers of 1..3 labels, 2-3 consecutive issuances; default_hooks.toml is included unmodified; a validating CA reads "
+                   "to their documented defaults, identifiers of 1..3 labels, one of 70+ characters, certificates with 2-3 names sharing one set of settings (one listen address), 2-3 consecutive issuances; default_hooks.toml is included unmodified; a validating CA reads "
                    "the http-01 proof at the documented path and performs a real acme-tls/1 handshake with the documented address or socket; after every run the driver "
                    "looks for leftovers and compares the git HEAD with the stored files"}
     return {"coverage": cov, "assumptions": ["identifiers that must resolve locally are 'localhost' (no DNS in the sandbox); otherwise TACD_HOST=127.0.0.1 as the manual allows",
